@@ -13,6 +13,7 @@ EXTENDS WSConn, Json, IOUtils
 
 Log == ndJsonDeserialize(IOEnv.TRACE_FILE)
 OpClose == 8  OpPing == 9  OpPong == 10     \* RFC 6455 5.2 (WSBase)
+TraceInqBound == 8                          \* replaces WSConn!InqBound in the trace configurations
 
 VARIABLES l,      \* next line of the trace
           gm,     \* goroutine id -> process
@@ -35,35 +36,49 @@ Proc(g) == IF g \in DOMAIN gm THEN gm[g] ELSE "none"
 IsAC == e.g \notin DOMAIN gm /\ e.ev = "CloseEnter" /\ AC \in Procs /\ pc[AC] \in {"ac_cl0", "ac_clA"}
 q == IF IsAC THEN AC ELSE Proc(e.g)
 Stutter == UNCHANGED vars
-Pfx(x) == IF x = R THEN "r" ELSE "k"
+(* the CloseRead goroutine reads in two places: inside Reader (labels c...) and, after a data message made it start the close   *)
+(* handshake, inside waitCloseHandshake (labels d...)                                                                            *)
+DLabels == {"d_waitlock", "d_hdr_in", "d_pongsig", "d_rdunlock"}
+           \cup { "dpong" \o x : x \in {"_wflock", "_arm", "_hdr", "_pay", "_disarm", "_wfunlock"} }
+           \cup { "decho" \o x : x \in {"_wflock", "_arm", "_hdr", "_pay", "_disarm", "_wfunlock"} }
+           \cup { y \o x : y \in {"dx", "dxf"}, x \in {"_cl0", "_clA", "_cl1", "_cl2", "_clZ"} }
+Pfx(x) == IF x = R THEN "r" ELSE IF x = K THEN "k" ELSE IF pc[CR] \in DLabels THEN "d" ELSE "c"
+Readers == {R, K, CR} \cap Procs                       \* the processes that run the read loop
+RoleStep(x) == IF x = R THEN Reader ELSE IF x = K THEN Closer ELSE CloseReader
+OnData(x) == IF x = CR /\ Pfx(CR) = "c" THEN "c_rdunlockD" ELSE Pfx(x) \o "_hdr_in"
 
 (* the frame paths of the processes: <<process, stage, label after the frame>> *)
-FC == { <<w, "w", "w_after">> : w \in Writers } \cup
+FCAll == { <<w, "w", "w_after">> : w \in Writers } \cup
       { <<P, "p", "p_wait">>, <<R, "rpong", "r_hdr_in">>, <<R, "recho", "rx_cl0">>,
-        <<K, "k1", "k_waitlock">>, <<K, "kpong", "k_hdr_in">>, <<K, "kecho", "kx_cl0">> }
+        <<K, "k1", "k_waitlock">>, <<K, "kpong", "k_hdr_in">>, <<K, "kecho", "kx_cl0">>,
+        <<CR, "cpong", "c_hdr_in">>, <<CR, "cecho", "cx_cl0">>, <<CR, "c1", "d_waitlock">>, <<CR, "dpong", "d_hdr_in">>, <<CR, "decho", "dx_cl0">> }
+FC == { t \in FCAll : t[1] \in Procs }
 At(x, suffix) == { t \in FC : t[1] = x /\ pc[x] = t[2] \o suffix }
 (* close() bodies: <<process, stage, label after, readMu held>> *)
-CC == { <<AC, "ac", "ac_done", FALSE>>, <<K, "k", "k_wg", FALSE>>, <<R, "rx", "r_rdunlock", TRUE>>, <<R, "rxf", "r_rdunlock", FALSE>>,
+CCAll == { <<AC, "ac", "ac_done", FALSE>>, <<K, "k", "k_wg", FALSE>>, <<R, "rx", "r_rdunlock", TRUE>>, <<R, "rxf", "r_rdunlock", FALSE>>,
         <<K, "kx", "k_rdunlock", TRUE>>, <<K, "kxf", "k_rdunlock", FALSE>>,
         <<N, "n", "n_wg", FALSE>>, <<N, "nl", "nl_wg", FALSE>>,        \* CloseNow: close() whether it won casClosing or not
-        <<P, "pc", "p_fin", FALSE>> }                                   \* Ping whose context expired while it waited for the pong
-Closers == {R, K, AC, N, P} \cap Procs                                             \* the processes that run close()
-CasProcs == {K, N} \cap Procs                                                   \* ... and casClosing / waitGoroutines
+        <<P, "pc", "p_fin", FALSE>>,                                    \* Ping whose context expired while it waited for the pong
+        <<CR, "c", "c_done", FALSE>>, <<CR, "cx", "c_rdunlock", TRUE>>, <<CR, "cxf", "c_rdunlock", FALSE>>,
+        <<CR, "dx", "d_rdunlock", TRUE>>, <<CR, "dxf", "d_rdunlock", FALSE>> }
+CC == { t \in CCAll : t[1] \in Procs }
+Closers == {R, K, AC, N, P, CR} \cap Procs                                             \* the processes that run close()
+CasProcs == {K, N, CR} \cap Procs                                                   \* ... and casClosing / waitGoroutines
 InClose(x, suffix) == { t \in CC : t[1] = x /\ pc[x] = t[2] \o suffix }
 
 InitW == Init     \* WSConn's initial state, re-established at every TraceReset
 ResetConn ==
   /\ closed' = FALSE /\ closing' = FALSE /\ sentClose' = FALSE
   /\ lk' = [x \in Locks |-> "free"] /\ out' = <<>> /\ emitting' = "none" /\ inq' = <<>>
-  /\ pc' = [x \in Procs |-> CASE x = K -> "k_cas" [] x = R -> "r_lock" [] x = P -> "p_reg" [] x = AC -> "ac_idle" [] x = N -> "n_cas" [] OTHER -> "w_msglock"]
+  /\ pc' = [x \in Procs |-> CASE x = K -> "k_cas" [] x = R -> (IF CR \in Procs THEN "r_done" ELSE "r_lock") [] x = P -> "p_reg" [] x = AC -> "ac_idle" [] x = N -> "n_cas" [] x = CR -> "c_lock" [] OTHER -> "w_msglock"]
   /\ pingActive' = FALSE /\ pongSig' = FALSE /\ peerDid' = {} /\ ret' = [x \in Procs |-> "none"]
   /\ tl' = "running" /\ wframe' = [w \in Writers |-> 1] /\ armedW' = "none" /\ cancelled' = {} /\ fired' = "none"
 
 OpCode(kind) == CASE kind = "data" -> 99 [] kind = "ping" -> OpPing [] kind = "pong" -> OpPong [] OTHER -> OpClose
 
 RdUnlock(x) == /\ pc[x] = Pfx(x) \o "_rdunlock"
-               /\ IF x = R THEN Reader ELSE Closer
-               /\ pc'[x] = IF x = R THEN "r_done" ELSE "k_cl0pre"
+               /\ RoleStep(x)
+               /\ pc'[x] = IF x = R THEN "r_done" ELSE IF x = K THEN "k_cl0pre" ELSE "c_cl0"
 
 Mapped ==
   CASE e.ev = "TraceReset" -> ResetConn
@@ -82,16 +97,19 @@ Mapped ==
     [] e.ev = "LockOK" /\ e.l = "msg" -> WMsgLock(q) /\ pc'[q] = "w_wflock"
     [] e.ev \in {"LockFailClosed", "LockAcqSawClosed"} /\ e.l = "msg" -> WMsgLock(q) /\ pc'[q] = "w_done"
     [] e.ev = "LockOK" /\ e.l = "rd" -> IF q = R THEN RLock /\ pc'[R] = "r_hdr_in"
+                                        ELSE IF q = CR THEN CloseReader /\ pc[CR] \in {"c_lock", "d_waitlock"} /\ pc'[CR] = (IF pc[CR] = "c_lock" THEN "c_hdr_in" ELSE "d_hdr_in")
                                         ELSE WaitLock(K, "k_waitlock", "k_hdr_in", "k_cl0pre") /\ pc'[K] = "k_hdr_in"
     [] e.ev \in {"LockFailClosed", "LockAcqSawClosed", "LockFailCtx"} /\ e.l = "rd" ->
          IF q = R THEN RLock /\ pc'[R] = "r_done"
+         ELSE IF q = CR THEN CloseReader /\ pc[CR] \in {"c_lock", "d_waitlock"} /\ pc'[CR] = "c_cl0"
          ELSE WaitLock(K, "k_waitlock", "k_hdr_in", "k_cl0pre") /\ pc'[K] = "k_cl0pre"
     [] e.ev = "UnlockPre" /\ e.l = "wf" -> IF At(q, "_wfunlock") # {} THEN \E t \in At(q, "_wfunlock") : FrameUnlock(q, t[2], t[3]) ELSE Stutter
     [] e.ev = "UnlockPre" /\ e.l = "msg" -> IF q \in Writers /\ pc[q] = "w_after" THEN WNext(q) /\ pc'[q] = "w_done" ELSE Stutter
     [] e.ev = "UnlockPre" /\ e.l = "rd" ->
-         IF q \in {R, K} /\ pc[q] = Pfx(q) \o "_rdunlock" THEN RdUnlock(q)
-         ELSE IF q \in {R, K} /\ pc[q] = Pfx(q) \o "x_cl0"          \* closeWith(true) could not get closeMu: readMu is released first
-              THEN (IF q = R THEN Reader ELSE Closer) /\ pc'[q] = Pfx(q) \o "xf_cl0"
+         IF q \in Readers /\ pc[q] = Pfx(q) \o "_rdunlock" THEN RdUnlock(q)
+         ELSE IF q = CR /\ pc[CR] = "c_rdunlockD" THEN CloseReader /\ pc'[CR] = "c_cas"     \* Reader returned a data message to the CloseRead goroutine
+         ELSE IF q \in Readers /\ pc[q] = Pfx(q) \o "x_cl0"          \* closeWith(true) could not get closeMu: readMu is released first
+              THEN RoleStep(q) /\ pc'[q] = Pfx(q) \o "xf_cl0"
          ELSE Stutter
     \* ---------------- writeFrame ----------------
     \* the line is written after the select that armed the frame: the arm itself lies between LockOK and this line and may have been
@@ -121,30 +139,30 @@ Mapped ==
     \* ---------------- the read loop (Read, or the loop inside Close) ----------------
     \* ReadFrame takes a whole frame; a control frame has been read when its payload has (CtlPayload) -- the connection may be
     \* closed under the payload read, and the reader then leaves as if it had been woken before the frame (UnlockPre rd, silent step)
-    [] e.ev = "RdHeader" /\ q \in {R, K, AC} ->
+    [] e.ev = "RdHeader" /\ q \in Readers ->
          /\ inq # <<>> /\ pc[q] = Pfx(q) \o "_hdr_in"
          /\ Head(inq) = (CASE e.a = OpPing -> "ping" [] e.a = OpPong -> "pong" [] e.a = OpClose -> "close" [] OTHER -> "data")
-         /\ IF e.a \in {OpPing, OpPong, OpClose} THEN Stutter ELSE ReadFrame(q, Pfx(q), Pfx(q) \o "_hdr_in")
-    [] e.ev = "CtlPayload" /\ q \in {R, K, AC} ->
+         /\ IF e.a \in {OpPing, OpPong, OpClose} THEN Stutter ELSE ReadFrame(q, Pfx(q), OnData(q))
+    [] e.ev = "CtlPayload" /\ q \in Readers ->
          /\ inq # <<>>
          /\ Head(inq) = (CASE e.a = OpPing -> "ping" [] e.a = OpPong -> "pong" [] OTHER -> "close")
-         /\ ReadFrame(q, Pfx(q), Pfx(q) \o "_hdr_in")
-    [] e.ev = "PongRcvd" -> IF q \in {R, K} /\ pc[q] = Pfx(q) \o "_pongsig" THEN PongSignal(q, Pfx(q)) ELSE Stutter
-    [] e.ev = "RdHeaderErr" /\ q \in {R, K, AC} ->
+         /\ ReadFrame(q, Pfx(q), OnData(q))
+    [] e.ev = "PongRcvd" -> IF q \in Readers /\ pc[q] = Pfx(q) \o "_pongsig" THEN PongSignal(q, Pfx(q)) ELSE Stutter
+    [] e.ev = "RdHeaderErr" /\ q \in Readers ->
          IF pc[q] # Pfx(q) \o "_hdr_in" THEN Stutter
-         ELSE (IF q = R THEN Reader ELSE Closer) /\ pc'[q] = Pfx(q) \o "_rdunlock" /\ closed
+         ELSE RoleStep(q) /\ pc'[q] = Pfx(q) \o "_rdunlock" /\ closed
     \* ---------------- Close / close() ----------------
-    [] e.ev \in {"CasClosingOK", "CasClosingFail"} -> q \in CasProcs /\ pc[q] = (IF q = K THEN "k_cas" ELSE "n_cas") /\ Stutter   \* placed by the silent step Pending
+    [] e.ev \in {"CasClosingOK", "CasClosingFail"} -> q \in CasProcs /\ pc[q] = (IF q = K THEN "k_cas" ELSE IF q = N THEN "n_cas" ELSE "c_cas") /\ Stutter   \* placed by the silent step Pending
     [] e.ev = "CloseEnter" /\ q \in Closers ->
          IF InClose(q, "_cl0") = {} THEN InClose(q, "_clA") # {} /\ Stutter      \* closeMu was taken before this line (EarlyAcquire)
          ELSE \E t \in InClose(q, "_cl0") :
-            IF t[4] THEN (IF q = R THEN Reader ELSE Closer) /\ pc'[q] = t[2] \o "_clA"
+            IF t[4] THEN RoleStep(q) /\ pc'[q] = t[2] \o "_clA"
             ELSE IF q = AC THEN AsyncCloser /\ pc'[AC] = "ac_clA"
             ELSE CmAcquire(q, t[2])
     \* the timeoutLoop closing the connection because the 5 s context of Close's read loop is done: its close() is collapsed in
     \* the model (T5); the flag flips between its ClosedPre and ClosedPost like anybody's
     [] q = "TL" /\ e.ev = "ClosedPre" -> ~closed /\ Stutter
-    [] q = "TL" /\ e.ev = "ClosedPost" -> IF win = "TL" THEN (T5(K, "k") \/ TLFireW) ELSE Stutter
+    [] q = "TL" /\ e.ev = "ClosedPost" -> IF win = "TL" THEN (T5(K, "k") \/ TLFireW \/ (CR \in Procs /\ T5(CR, "d"))) ELSE Stutter
     [] q = "TL" /\ e.ev # "TLExit" -> Stutter
     [] e.ev = "CloseAlready" /\ q \in Closers -> closed /\ \E t \in InClose(q, "_clA") : CmFlip(q, t[2])
     \* rule R3: close(c.closed) happens somewhere between the lines ClosedPre and ClosedPost; the flip is placed by a silent step
@@ -154,12 +172,17 @@ Mapped ==
     [] e.ev = "ForceLock" /\ e.l = "rd" /\ q \in Closers -> \E t \in InClose(q, "_cl2") : CmForceRd(q, t[2], FALSE)
     [] e.ev = "CloseExit" /\ q \in Closers -> InClose(q, "_clZ") # {} /\ Stutter       \* closeMu is released after this line: silent
     \* waitGoroutines' last step, logged while it holds closeMu (so that "closeMu was free" is observed where it is true)
+    \* what Close / CloseNow really returned against what the model says they return: the call that won casClosing never reports
+    \* net.ErrClosed (class 1), every other call reports exactly that
+    [] e.ev \in {"CloseRet", "CloseNowRet"} /\ q \in {K, N} ->
+         /\ ret[q] \in {"returned", "errClosed"} /\ (ret[q] = "errClosed") = (e.b = 1) /\ Stutter
     [] e.ev = "WgCloseMu" /\ q \in CasProcs -> Stutter                                   \* placed by the silent step Pending
     [] e.ev = "TLExit" -> "TL" \notin rel /\ (IF tl = "exited" THEN Stutter ELSE TLExit)   \* (a timeoutLoop that fired leaves by TLCloseDone)
     \* the application cancels the context of a call (announced by the harness before it calls cancel())
     [] e.ev = "CtxCancel" -> CtxCancel(e.s)
     \* ---------------- the peer (announced by the harness before the bytes are written) ----------------
     [] e.ev = "PeerSent" /\ e.a = OpPong -> SawOut("ping") /\ PeerAct("pong", "pong")
+    [] e.ev = "PeerSent" /\ e.a \in {1, 2} -> PeerAct("data", "data")
     [] e.ev = "PeerSent" /\ e.a = OpClose -> PeerAct("close", "close") \/ (SawOut("close") /\ PeerAct("echo", "close"))
     [] OTHER -> Stutter
 
@@ -180,6 +203,7 @@ Consume == /\ l <= Len(Log) /\ l' = l + 1 /\ sil' = 0
            /\ gm' = IF e.ev = "TraceReset" THEN <<>>
                     ELSE IF e.ev = "Actor" THEN [x \in DOMAIN gm \cup {e.g} |-> IF x = e.g THEN e.s ELSE gm[x]]
                     ELSE IF IsAC THEN [x \in DOMAIN gm \cup {e.g} |-> IF x = e.g THEN AC ELSE gm[x]]
+                    ELSE IF e.ev = "CrStart" THEN [x \in DOMAIN gm \cup {e.g} |-> IF x = e.g THEN CR ELSE gm[x]]
                     ELSE IF e.ev = "TLStart" THEN [x \in DOMAIN gm \cup {e.g} |-> IF x = e.g THEN "TL" ELSE gm[x]] ELSE gm
            /\ (q \in CasProcs /\ ~skip /\ e.ev # "TraceReset") => pend[q] = "none"        \* a pending step comes before its process's next line
            /\ pend' = IF e.ev = "TraceReset" THEN [x \in CasProcs |-> "none"]
@@ -192,8 +216,10 @@ NextIs(S) == l <= Len(Log) /\ Log[l].ev \in S
 (* steps the code takes without a hook *)
 PendingStep(x) ==
    CASE pend[x] = "CasClosingOK" -> IF x = K THEN Cas(K, "k_cas", "k1_wflock", "kl_wg") /\ pc'[K] = "k1_wflock"
+                                    ELSE IF x = CR THEN CloseReader /\ pc[CR] = "c_cas" /\ pc'[CR] = "c1_wflock"
                                     ELSE CloseNower /\ pc[N] = "n_cas" /\ pc'[N] = "n_cl0"
      [] pend[x] = "CasClosingFail" -> IF x = K THEN Cas(K, "k_cas", "k1_wflock", "kl_wg") /\ pc'[K] = "kl_wg"
+                                      ELSE IF x = CR THEN CloseReader /\ pc[CR] = "c_cas" /\ pc'[CR] = "c_cl0"
                                       ELSE CloseNower /\ pc[N] = "n_cas" /\ pc'[N] = "nl_cl0"
      [] pend[x] = "WgCloseMu" -> IF x = K THEN (IF pc[K] = "k_wg" THEN WaitGor(K, "k_wg", "k_done", "returned") ELSE WaitGor(K, "kl_wg", "k_done", "errClosed"))
                                  ELSE (IF pc[N] = "n_wg" THEN WaitGor(N, "n_wg", "n_done", "returned") ELSE WaitGor(N, "nl_wg", "n_done", "errClosed"))
@@ -201,7 +227,7 @@ PendingStep(x) ==
 SilentStep ==
           /\ \/ KPre /\ UNCHANGED <<win, rel>>
              \/ win \notin {"none", "TL"} /\ win' = "none" /\ UNCHANGED rel /\ \E t \in InClose(win, "_clA") : CmFlip(win, t[2])
-             \/ win = "TL" /\ win' = "none" /\ UNCHANGED rel /\ (T5(K, "k") \/ TLFireW)
+             \/ win = "TL" /\ win' = "none" /\ UNCHANGED rel /\ (T5(K, "k") \/ TLFireW \/ (CR \in Procs /\ T5(CR, "d")))
              \/ \E x \in rel \ {"TL"} : rel' = rel \ {x} /\ UNCHANGED win /\ \E t \in InClose(x, "_clZ") : CmRelease(x, t[2], t[3])
              \/ "TL" \in rel /\ rel' = rel \ {"TL"} /\ UNCHANGED win /\ TLCloseDone       \* the timeoutLoop's close() is through: closeMu released
              \/ UNCHANGED <<win, rel>> /\ closed /\ \E t \in FC : pc[t[1]] = t[2] \o "_disarm" /\ FrameDisarm(t[1], t[2])   \* rest of a torn frame
@@ -210,19 +236,19 @@ SilentStep ==
              \/ UNCHANGED <<win, rel>> /\ NextIs({"ClosedPre", "ClosedPost", "TLExit"}) /\ \E t \in FC : pc[t[1]] = t[2] \o "_disarm" /\ tl = "running" /\ FrameDisarm(t[1], t[2]) /\ ret' = ret
              \* EarlyAcquire: the CloseEnter line follows closeMu.Lock(); a reader whose TryLock(closeMu) failed in between has its
              \* readMu.unlock line before it
-             \/ /\ UNCHANGED <<win, rel>> /\ NextIs({"UnlockPre"}) /\ (\E y \in {R, K} : pc[y] = Pfx(y) \o "x_cl0")
+             \/ /\ UNCHANGED <<win, rel>> /\ NextIs({"UnlockPre"}) /\ (\E y \in Readers : pc[y] = Pfx(y) \o "x_cl0")
                 /\ \E x \in Closers : \E t \in InClose(x, "_cl0") : ~t[4] /\ CmAcquire(x, t[2])
              \* closeWith(true) found closeMu taken -- by a casClosing or a waitGoroutines that has long finished when the line of the
              \* readMu.unlock that follows is written: the TryLock is placed inside that window
              \/ /\ UNCHANGED <<win, rel>>
-                /\ \E x \in {R, K} : pc[x] = Pfx(x) \o "x_cl0" /\ (IF x = R THEN Reader ELSE Closer) /\ pc'[x] = Pfx(x) \o "xf_cl0"
+                /\ \E x \in Readers : pc[x] = Pfx(x) \o "x_cl0" /\ RoleStep(x) /\ pc'[x] = Pfx(x) \o "xf_cl0"
              \* a reader that found the connection closed at one of readFrameHeader's two selects leaves without a line of its own:
              \* placed right before the line of its deferred readMu.unlock
-             \/ /\ UNCHANGED <<win, rel>> /\ l <= Len(Log) /\ e.ev = "UnlockPre" /\ e.l = "rd" /\ q \in {R, K} /\ closed
-                /\ pc[q] = Pfx(q) \o "_hdr_in" /\ (IF q = R THEN Reader ELSE Closer) /\ pc'[q] = Pfx(q) \o "_rdunlock"
+             \/ /\ UNCHANGED <<win, rel>> /\ l <= Len(Log) /\ e.ev = "UnlockPre" /\ e.l = "rd" /\ q \in Readers /\ closed
+                /\ pc[q] = Pfx(q) \o "_hdr_in" /\ RoleStep(q) /\ pc'[q] = Pfx(q) \o "_rdunlock"
              \/ UNCHANGED <<win, rel>> /\ \E w \in Writers : pc[w] = "w_after" /\ wframe[w] < FramesOf[w] /\ ~closed /\ WNext(w)   \* Writer.Close after Writer.Write
              \/ UNCHANGED <<win, rel>> /\ \E x \in Closers : \E t \in InClose(x, "_cl1") : ~Client /\ CmForceWf(x, t[2])             \* a server's close() takes no frame lock
-             \/ UNCHANGED <<win, rel>> /\ \E x \in {R, K} : \E t \in InClose(x, "_cl2") : t[4] /\ CmForceRd(x, t[2], TRUE)          \* closeWith(true): readMu is already held
+             \/ UNCHANGED <<win, rel>> /\ \E x \in Readers : \E t \in InClose(x, "_cl2") : t[4] /\ CmForceRd(x, t[2], TRUE)          \* closeWith(true): readMu is already held
 
 Silent == /\ ~skip /\ sil < 4 /\ sil' = sil + 1 /\ UNCHANGED <<l, gm, cpost, late, skip, nskip>>
           /\ \/ \E x \in CasProcs : pend[x] # "none" /\ pend' = [pend EXCEPT ![x] = "none"] /\ UNCHANGED <<win, rel>> /\ PendingStep(x)
